@@ -1244,10 +1244,15 @@ class CanUnprotect(BaseSecurityContext):
             request_id,
         )
 
-        assert (request_id is not None) == protected_message.code.is_response(), (
-            "Requestishness of code to unprotect does not match presence of request ID"
-        )
         is_response = protected_message.code.is_response()
+        # The outer code is not integrity protected; whatever it was changed
+        # to on the way, the message is merely one that can not be verified.
+        if (request_id is not None) != is_response:
+            raise ProtectionInvalid(
+                "Requestishness of code to unprotect does not match presence of request ID"
+            )
+        if not is_response and protected_message.code not in (POST, FETCH):
+            raise ProtectionInvalid("Outer code of a request is neither POST nor FETCH")
 
         assert protected_message.direction is Direction.INCOMING
 
